@@ -222,6 +222,7 @@ class MatcherAtoms:
         self.form = Formula(self.leaf, {"cp": [False, True], "cr": [False, True]})
         self.label_vars = {pred_var, ref_var}
         self.depth = 0
+        self.extra_feasible: list = []
         self.metric_cls = (metric_value_class(self.prog), metric_enum_class(self.prog))
 
     # -- numeric keys ---------------------------------------------------------------------
@@ -277,6 +278,11 @@ class MatcherAtoms:
                         atom = "cp"
             if atom:
                 return (lambda a, k=atom: not a[k]) if neg else (lambda a, k=atom: a[k])
+            # membership in a local tracking set/list/dict
+            if isinstance(l, ast.Name) and isinstance(r, ast.Name) and l.id in (self.pred_var, self.ref_var):
+                key = self.tracking_atom(r.id, l.id)
+                if key is not None:
+                    return (lambda a, k=key: not a[k]) if neg else (lambda a, k=key: a[k])
             return None
         # None tests on label / score variables (ints / floats by construction)
         if isinstance(e, ast.Compare) and len(e.ops) == 1 and isinstance(e.ops[0], (ast.Is, ast.IsNot)):
@@ -350,6 +356,65 @@ class MatcherAtoms:
                         return self._sub(ex, callee)
             return None
         return None
+
+    def tracking_atom(self, coll: str, elem: str) -> Optional[str]:
+        """Atom for `elem in coll` where coll is a local set/list/dict filled in the loop.
+        If every insertion of the element happens together with the label-map assignment of the
+        same candidate, the collection mirrors the label map (atom = cp / cr).  Otherwise the
+        collection can also contain labels that were only *visited*: a separate atom that is
+        implied by cp / cr but not equivalent to it."""
+        f = self.f
+        is_local_coll = False
+        for n in walk_no_nested(f.node):
+            tgt = val = None
+            if isinstance(n, ast.Assign) and len(n.targets) == 1 and isinstance(n.targets[0], ast.Name):
+                tgt, val = n.targets[0].id, n.value
+            elif isinstance(n, ast.AnnAssign) and isinstance(n.target, ast.Name) and n.value is not None:
+                tgt, val = n.target.id, n.value
+            if tgt == coll and ((isinstance(val, ast.Call) and dotted(val.func) in ("set", "list", "dict")) or isinstance(val, (ast.Set, ast.List, ast.Dict))):
+                is_local_coll = True
+        if not is_local_coll:
+            return None
+        base = "cp" if elem == self.pred_var else "cr"
+        inserts = []
+        for n in walk_no_nested(f.node):
+            if isinstance(n, ast.Call) and isinstance(n.func, ast.Attribute) and isinstance(n.func.value, ast.Name) and n.func.value.id == coll and n.func.attr in ("add", "append") and n.args and isinstance(n.args[0], ast.Name) and n.args[0].id == elem:
+                inserts.append(n)
+            if isinstance(n, ast.Assign) and len(n.targets) == 1 and isinstance(n.targets[0], ast.Subscript) and isinstance(n.targets[0].value, ast.Name) and n.targets[0].value.id == coll and isinstance(n.targets[0].slice, ast.Name) and n.targets[0].slice.id == elem:
+                inserts.append(n)
+        if not inserts:
+            return None
+        pm = self.prog.parents(f)
+
+        def block_of(node):
+            st = node
+            while id(st) in pm and not isinstance(st, ast.stmt):
+                st = pm[id(st)]
+            par = pm.get(id(st))
+            for fld in ("body", "orelse", "finalbody"):
+                b = getattr(par, fld, None)
+                if isinstance(b, list) and st in b:
+                    return b
+            return []
+
+        def has_assignment(block):
+            # a sibling statement of the same block (same path condition) assigns the candidate
+            for s_ in block:
+                if isinstance(s_, ast.Expr) and isinstance(s_.value, ast.Call) and isinstance(s_.value.func, ast.Attribute) and s_.value.func.attr == "add_labelmap_entry":
+                    return True
+            return False
+
+        mirrors = all(has_assignment(block_of(i)) for i in inserts)
+        if mirrors:
+            return base
+        key = f"visited:{coll}"
+        self.form.domains.setdefault(key, [False, True])
+        self.extra_feasible.append((base, key))
+        return key
+
+    def feasible(self, a: dict) -> bool:
+        # a label that is in the label map has also been put into every collection that tracks it
+        return all((not a[b]) or a[k] for b, k in self.extra_feasible)
 
     def _sub(self, ex: ast.expr, callee: Optional[Func] = None):
         self.depth += 1
